@@ -53,23 +53,30 @@ def replay(rec: Dict[str, Any]) -> List[Tuple[str, Dict[str, Any], str]]:
         for d, dt in enumerate(docs):
             doc = untag(dt["doc"])
             ctx = untag(ctx_t)
-            start = [doc] if root == "^" else (ctx if root == "_" else doc)
-            exp = [canon(tag(value_at(start, l))) for l in rec["res"][d]]
-            try:
-                obs_vals = jsonpath.findall(text, doc, filter_context=ctx)
-                obs = [canon(tag(v)) for v in obs_vals]
-                disc = "" if obs == exp else "different-values"
-                if not disc and canon(tag(doc)) != canon(dt["doc"]):
-                    disc = "document-modified"
-                if not disc and canon(tag(ctx)) != canon(ctx_t):
-                    disc = "filter-context-modified"
-            except BaseException as e:  # noqa: BLE001
-                disc = f"evaluate-raised-{exc_family(e)}"
-                obs_vals = []
+            ctx2 = untag(_state["ctx2"])
+            disc = ""
+            obs_vals: Any = []
+            # the same compiled query on the same document object: context 1, context 2, context 1 again
+            for which, c, key in (("", ctx, "res"), ("second-context:", ctx2, "res2"), ("first-context-again:", ctx, "res")):
+                start = [doc] if root == "^" else (c if root == "_" else doc)
+                exp = [canon(tag(value_at(start, l))) for l in rec[key][d]]
+                try:
+                    obs_vals = path.findall(doc, filter_context=c) if which else jsonpath.findall(text, doc, filter_context=c)
+                    obs = [canon(tag(v)) for v in obs_vals]
+                    if obs != exp:
+                        disc = which + "different-values"
+                    elif canon(tag(doc)) != canon(dt["doc"]):
+                        disc = which + "document-modified"
+                    elif canon(tag(c)) != canon(ctx_t if key == "res" else _state["ctx2"]):
+                        disc = which + "filter-context-modified"
+                except BaseException as e:  # noqa: BLE001
+                    disc = f"{which}evaluate-raised-{exc_family(e)}"
+                if disc:
+                    break
             if disc:
                 sig = f"{disc}|{rec['universe']}|{'+'.join(sorted(expr_features(rec['q'])))}"
                 return [(sig, {"query": text, "style": si, "standard_spelling": untext(rec["texts"][0]), "doc": show(dt["doc"]),
-                               "filter_context": show(ctx_t), "expected_values": [value_at([untag(dt["doc"])] if root == "^" else (untag(ctx_t) if root == "_" else untag(dt["doc"])), l) for l in rec["res"][d]],
+                               "filter_context": show(ctx_t), "second_filter_context": show(_state["ctx2"]), "expected_values": [show(tag(value_at([untag(dt["doc"])] if root == "^" else (untag(ctx_t) if root == "_" else untag(dt["doc"])), l))) for l in rec["res"][d]],
                                "observed_values": obs_vals, "tagged": rec}, disc)]
     return []
 
@@ -83,6 +90,7 @@ def load(chk: Check) -> List[Dict[str, Any]]:
             if "docs" in x:
                 _state["docs"] = x["docs"]
                 _state["ctx"] = x["ctx"]
+                _state["ctx2"] = x["ctx2"]
             else:
                 x["universe"] = u
                 recs.append(x)
